@@ -104,8 +104,10 @@ def scenarios(thorough):
     for cmd in ("toma", "topa", "samvar"):
         add("blank-sam", cmd, {"in.sam": "\n"})
     short_ref = fasta([("ref", REF[:-2])])
+    long_ref = fasta([("ref", REF + "AC")])
     for cmd in ("snps", "udlist", "toprank"):
         add("reference-width", cmd, {"ref.fa": short_ref})
+        add("reference-width", cmd, {"ref.fa": long_ref}, tag="alignment-narrower")
     add("reference-width", "variants", {"m.fa": fasta([(n, s[:-2]) for n, s in recs()])})
     add("reference-width", "variants", {"m.fa": fasta([("ref", REF)] + [(n, s + "A") for n, s in recs()])},
         args=["variants", "--msa", "@m.fa", "--reference", "ref", "-a", "@a.gb"], tag="ref-in-msa")
